@@ -4,8 +4,8 @@
    worker 1 = the data goroutine (one token per element, then forwards it to out 0) - Pipe/Stages.v,
    mirroring pipe.Throttling.  [tokens s] = tokens pushed so far.
 
-   PARTIAL with respect to the property's rate clause.  Proved, for every ops, interval, capacities,
-   arrival pattern, consumer pace and ANY way the virtual clock advances:
+   Nothing of the property is left partial.  Proved, for every ops,
+   interval, capacities, arrival pattern, consumer pace and ANY way the virtual clock advances:
      - content: exactly the input elements, in order, once each; closes when the input closes; no panic;
        no deadlock (only the pacer's timer can be what everybody waits for);
      - C13_tokens_rate: the pacer pushes at most ops tokens per interval counted from the start:
@@ -14,13 +14,31 @@
        and every element made available on the output ([made s] = received from out 0 + buffered in out 0),
        plus the one the data goroutine holds after its token receive ([hold s]), has consumed a token:
        made + hold <= tokens taken from the token channel <= tokens pushed;
-     - C13_deliveries_rate: hence, before cancel, deliveries by time t <= ops * (t / interval + 1).
-   NOT proved as theorems (checked by the correspondence oracle on every explored virtual-time schedule):
-     - the sliding-window form "no window of length interval sees more than 2*ops + 1 + c deliveries";
-     - the exact schedule floor(i/ops)*interval under maximal progress with input always available. *)
+     - C13_deliveries_rate: hence, before cancel, deliveries by time t <= ops * (t / interval + 1);
+     - C13_window (the sliding window): for two points s1, s2 of one run with now s2 < now s1 + interval and no
+       cancel at s2, the consumer has received at most ops + cap(ctl) + 1 + cap(out) elements between them;
+       C13_window_go: with the channels pipe.Throttling makes (ctl := make(chan struct{}, ops),
+       out := make(chan A, cap(in)), c = cap(in)) that is 2*ops + 1 + c.  s1 ranges over every reachable state,
+       in particular the one just before the first delivery of a window, so this is every HALF-OPEN window
+       [t, t + interval).  The closed window [t, t + interval] is not bounded by 2*ops + 1 + c: a pacer waking at t
+       pushes ops tokens, sleeps until exactly t + interval and pushes ops more at that instant
+       (C13_closed_window_refuted: 4 deliveries in [100, 110] with ops = 1, c = 0, interval = 10).
+       C13_window_tight: the bound is attained (ops = 1, c = 0: 3 deliveries at one instant after an idle period),
+       which also shows the hypotheses of C13_window are satisfiable;
+     - C13_tokens_window: the pacer pushes at most ops tokens between two such points (cancelled or not);
+     - C13_delivery_not_early: element number i (0-based) is not available on the output before
+       floor(i/ops)*interval - the lower half of the exact schedule, for any clock policy.
+   Under MAXIMAL PROGRESS (Pipe/PoolMaxProgress.v: the clock moves only when no goroutine can step, nothing is
+   receivable on out 0 - "the consumer is always ready" -, the data goroutine is not starved - "input is always
+   available" - and never past the pacer's pending deadline; the environment receives from out 0 only and never cancels):
+     - C13_throttle_delivery_count / C13_throttle_element_time: the schedule is EXACT - deliveries =
+       min(handed over, ops * (now / interval + 1)); element i is delivered at the instant floor(i/ops)*interval,
+       so "no later than one interval after that" holds with a whole interval to spare (see the comments at the
+       theorems below). *)
 From Coq Require Import List ZArith NArith.
 From Golem Require Import Base.Lists Pipe.Pool Pipe.Stages Pipe.PoolSteps Pipe.PoolLive Pipe.PoolSeq
-     Pipe.PoolThrottle Pipe.PoolThrottleRate Pipe.PoolThrottleDeliver.
+     Pipe.PoolThrottle Pipe.PoolThrottleRate Pipe.PoolThrottleDeliver Pipe.PoolThrottleWindow
+     Pipe.PoolMaxProgress Pipe.PoolThrottlePace.
 Import ListNotations.
 
 Theorem C13_throttle_prefix : forall (ops : nat) (interval : N) (icaps ocaps : list nat) (s : state),
@@ -87,3 +105,162 @@ Theorem C13_deliveries_rate : forall (ops : nat) (interval : N) (icaps ocaps : l
   (N.of_nat (made s) <= N.of_nat ops * (now s / interval + 1))%N.
 Proof. exact deliveries_rate. Qed.
 Print Assumptions C13_deliveries_rate.
+
+(* the pacer pushes at most ops tokens between two points of a run that are less than interval apart *)
+Theorem C13_tokens_window : forall (ops : nat) (interval : N) (icaps ocaps : list nat) (s1 : state) (tr : list ev) (s2 : state),
+  let c := throttle_stage ops interval icaps ocaps in
+  reachable c s1 -> exec_from c s1 tr = Some s2 -> (now s2 < now s1 + interval)%N ->
+  (tokens s2 <= tokens s1 + ops)%nat.
+Proof. exact window_tokens. Qed.
+Print Assumptions C13_tokens_window.
+
+(* THE SLIDING WINDOW: before cancel, no half-open time window [t, t + interval) sees more than
+   ops + cap(ctl) + 1 + cap(out) deliveries (ctl = out 1, out = out 0) *)
+Theorem C13_window : forall (ops : nat) (interval : N) (icaps ocaps : list nat) (tr1 tr2 : list ev) (s1 s2 : state),
+  let c := throttle_stage ops interval icaps ocaps in
+  exec c tr1 = Some s1 -> exec_from c s1 tr2 = Some s2 -> cancelled s2 = false -> (now s2 < now s1 + interval)%N ->
+  (length (delivered s2 0) <= length (delivered s1 0) + ops + nth_cap ocaps 1 + 1 + nth_cap ocaps 0)%nat.
+Proof. exact window_deliveries. Qed.
+Print Assumptions C13_window.
+
+(* ... that is 2*ops + 1 + c for the channels pipe.Throttling makes: cap(ctl) = ops, cap(out) = cap(in) = c *)
+Theorem C13_window_go : forall (ops : nat) (interval : N) (c : nat) (tr1 tr2 : list ev) (s1 s2 : state),
+  let cf := throttle_stage ops interval [c] [c; ops] in
+  exec cf tr1 = Some s1 -> exec_from cf s1 tr2 = Some s2 -> cancelled s2 = false -> (now s2 < now s1 + interval)%N ->
+  (length (delivered s2 0) <= length (delivered s1 0) + (2 * ops + 1 + c))%nat.
+Proof. exact window_deliveries_go. Qed.
+Print Assumptions C13_window_go.
+
+(* non-vacuity and tightness: ops = 1, interval = 10, c = 0; after an idle period 3 = 2*1+1+0 elements are
+   received at one instant (the held one, one for the waiting token, one for the token of the pacer's new round) *)
+Theorem C13_window_tight :
+  exec wx_cfg wx_idle = Some wx_s1 /\ exec_from wx_cfg wx_s1 wx_burst = Some wx_s2 /\
+  cancelled wx_s2 = false /\ (now wx_s2 < now wx_s1 + 10)%N /\
+  delivered wx_s1 0 = [] /\ delivered wx_s2 0 = [100%Z; 101%Z; 102%Z].
+Proof. exact window_bound_tight. Qed.
+Print Assumptions C13_window_tight.
+
+(* the closed window [t, t + interval] is NOT bounded by 2*ops + 1 + c *)
+Theorem C13_closed_window_refuted :
+  ~ (forall (ops : nat) (interval : N) (c : nat) (tr1 tr2 : list ev) (s1 s2 : state),
+       let cf := throttle_stage ops interval [c] [c; ops] in
+       exec cf tr1 = Some s1 -> exec_from cf s1 tr2 = Some s2 -> cancelled s2 = false -> (now s2 <= now s1 + interval)%N ->
+       (length (delivered s2 0) <= length (delivered s1 0) + (2 * ops + 1 + c))%nat).
+Proof. exact closed_window_refuted. Qed.
+Print Assumptions C13_closed_window_refuted.
+
+(* element number i (0-based: i < made s, made = received from + buffered in out 0) is not available on the output
+   before floor(i/ops)*interval, for any clock advance policy *)
+Theorem C13_delivery_not_early : forall (ops : nat) (interval : N) (icaps ocaps : list nat) (s : state) (i : nat),
+  reachable (throttle_stage ops interval icaps ocaps) s -> cancelled s = false -> (i < made s)%nat ->
+  (N.of_nat i / N.of_nat ops * interval <= now s)%N.
+Proof. exact delivery_not_early. Qed.
+Print Assumptions C13_delivery_not_early.
+
+(* ---------- the pace clause under maximal progress ---------- *)
+(* pace clause - "when input is always available and the consumer always ready, element i (counting
+   from 0) is delivered no earlier than floor(i/ops)*interval and no later than one interval after that".
+   Nothing but the property theorems; the upper half, under MAXIMAL PROGRESS (Pipe/PoolMaxProgress.v).
+   (The lower half - deliveries by time t <= ops * (t / interval + 1) for ANY clock policy - is
+   Properties/C13.v: C13_deliveries_rate.)
+
+   [throttle_stage ops interval icaps ocaps]: worker 0 = the pacer, worker 1 = the data goroutine, out 0 = the
+   output, out 1 = the token channel (internal).  [mp_reachable c ext0 fed s]: s is reached by an execution of
+   [step] in which
+     - the environment receives from out 0 only ([ext0]) and never cancels;
+     - every clock event [EAdvance t] happens in a [settled] state - no step of either goroutine enabled and
+       nothing receivable on out 0: "the consumer is always ready" - that is [fed] - the data goroutine is not
+       standing at `range in` with nothing to take: "input is always available" (implied by: the input buffer
+       is full or the input is closed, C13_saturated_is_fed) - and t does not exceed the pacer's pending deadline.
+   Hypothesis on the capacities: the token channel can hold a token when ops >= 1 (pipe.Throttling makes it
+   with capacity ops); the capacities of the input and of the output are arbitrary.
+
+   Result: the schedule is EXACT - deliveries = min(handed over, ops * (now / interval + 1)); element i is
+   delivered at the instant floor(i/ops) * interval, so "no later than one interval after" holds with a whole
+   interval to spare. *)
+
+
+(* whenever the clock may move: either the data goroutine has returned (input closed, everything handed over
+   was delivered, output closed), or it holds the next element and ALL ops * (now / interval + 1) tokens of
+   the batches so far have been turned into deliveries *)
+Theorem C13_throttle_keeps_pace : forall (ops : nat) (interval : N) (icaps ocaps : list nat),
+  (1 <= ops -> 1 <= nth_cap ocaps 1)%nat ->
+  forall s : state,
+  mp_reachable (throttle_stage ops interval icaps ocaps) ext0 fed s ->
+  settled (throttle_stage ops interval icaps ocaps) ext0 s -> fed s -> (0 < interval)%N ->
+  (wc (ws s 1) = WDone /\ cclosed (ins s 0) = true /\ cclosed (outs s 0) = true /\ delivered s 0 = sent s 0 /\
+   (N.of_nat (length (sent s 0)) <= N.of_nat ops * (now s / interval + 1))%N)
+  \/
+  (exists a : Z, wc (ws s 1) = WRun false [ATok 1; ASend 0 a] /\
+             N.of_nat (length (delivered s 0)) = (N.of_nat ops * (now s / interval + 1))%N /\
+             prefix (delivered s 0 ++ [a]) (sent s 0)).
+Proof. exact throttle_keeps_pace. Qed.
+Print Assumptions C13_throttle_keeps_pace.
+
+Theorem C13_throttle_delivery_count : forall (ops : nat) (interval : N) (icaps ocaps : list nat),
+  (1 <= ops -> 1 <= nth_cap ocaps 1)%nat ->
+  forall s : state,
+  mp_reachable (throttle_stage ops interval icaps ocaps) ext0 fed s ->
+  settled (throttle_stage ops interval icaps ocaps) ext0 s -> fed s -> (0 < interval)%N ->
+  N.of_nat (length (delivered s 0)) = N.min (N.of_nat (length (sent s 0))) (N.of_nat ops * (now s / interval + 1)).
+Proof. exact throttle_delivery_count. Qed.
+Print Assumptions C13_throttle_delivery_count.
+
+(* element i has been delivered <=> it was handed over and the instant floor(i/ops)*interval has been reached *)
+Theorem C13_throttle_element_time : forall (ops : nat) (interval : N) (icaps ocaps : list nat),
+  (1 <= ops -> 1 <= nth_cap ocaps 1)%nat ->
+  forall (s : state) (i : nat),
+  mp_reachable (throttle_stage ops interval icaps ocaps) ext0 fed s ->
+  settled (throttle_stage ops interval icaps ocaps) ext0 s -> fed s -> (0 < interval)%N -> (1 <= ops)%nat ->
+  ((i < length (delivered s 0))%nat <->
+   (i < length (sent s 0))%nat /\ (N.of_nat (i / ops) * interval <= now s)%N).
+Proof. exact throttle_element_time. Qed.
+Print Assumptions C13_throttle_element_time.
+
+(* the invariants behind it, for ALL maximal-progress states: tokens taken out of the token channel = elements
+   made available + the one in the data goroutine's hand (with C13_deliveries_le_tokens: equality), and - as long
+   as the data goroutine has not returned - the pacer's clock is exact: batch b starts at (b-1)*interval *)
+Theorem C13_tokens_all_spent : forall (ops : nat) (interval : N) (icaps ocaps : list nat) (s : state),
+  mp_reachable (throttle_stage ops interval icaps ocaps) ext0 fed s -> G s.
+Proof. exact G_mp_reachable. Qed.
+Print Assumptions C13_tokens_all_spent.
+
+Theorem C13_pacer_clock_exact : forall (ops : nat) (interval : N) (icaps ocaps : list nat),
+  (1 <= ops -> 1 <= nth_cap ocaps 1)%nat ->
+  forall s : state,
+  mp_reachable (throttle_stage ops interval icaps ocaps) ext0 fed s -> X interval s.
+Proof. exact X_mp_reachable. Qed.
+Print Assumptions C13_pacer_clock_exact.
+
+(* "input buffer full or input closed" is a sufficient, observable reading of "input always available" *)
+Theorem C13_saturated_is_fed : forall (ops : nat) (interval : N) (icaps ocaps : list nat) (s : state),
+  cclosed (ins s 0) = true \/ in_room (throttle_stage ops interval icaps ocaps) s 0 = false -> fed s.
+Proof. exact saturated_fed. Qed.
+Print Assumptions C13_saturated_is_fed.
+
+(* non-vacuity: 2 tokens per 5 ticks, five elements offered: 10, 11 at time 0; 12, 13 at time 5; 14 waits;
+   and the run in which the input is closed after 13 *)
+Theorem C13_throttle_keeps_pace_nonvacuous :
+  exists s, mp_reachable (throttle_stage 2 5 [1%nat] [1%nat; 2%nat]) ext0 fed s /\
+            settled (throttle_stage 2 5 [1%nat] [1%nat; 2%nat]) ext0 s /\ fed s /\
+            now s = 5%N /\ delivered s 0 = [10; 11; 12; 13]%Z /\ wc (ws s 1) = WRun false [ATok 1; ASend 0 14%Z].
+Proof. exact throttle_mp_example. Qed.
+Print Assumptions C13_throttle_keeps_pace_nonvacuous.
+
+Theorem C13_throttle_keeps_pace_nonvacuous_done :
+  exists s, mp_reachable (throttle_stage 2 5 [1%nat] [1%nat; 2%nat]) ext0 fed s /\
+            settled (throttle_stage 2 5 [1%nat] [1%nat; 2%nat]) ext0 s /\ fed s /\
+            now s = 100%N /\ delivered s 0 = [10; 11; 12; 13]%Z /\ wc (ws s 1) = WDone.
+Proof. exact throttle_mp_example_done. Qed.
+Print Assumptions C13_throttle_keeps_pace_nonvacuous_done.
+
+(* the policy bites: no clock move while the data goroutine starves, while an element waits in the output
+   buffer, or past the pacer's deadline *)
+Theorem C13_mp_policy_bites :
+  thr_mp_run 2 5 [1%nat] [1%nat; 2%nat] (thr_ex_batch ++ thr_ex_el 10 ++ [EAdvance 5]) = None /\
+  thr_mp_run 2 5 [1%nat] [1%nat; 2%nat]
+    (thr_ex_batch ++ [ESent 0 10%Z; EW 1 false; EW 1 false; EW 1 false; EAdvance 5]) = None /\
+  thr_mp_run 2 5 [1%nat] [1%nat; 2%nat]
+    (thr_ex_batch ++ thr_ex_el 10 ++ thr_ex_el 11 ++ [ESent 0 12%Z; EW 1 false; EAdvance 6]) = None.
+Proof. exact (conj throttle_mp_starved (conj throttle_mp_no_lag throttle_mp_no_jump)). Qed.
+Print Assumptions C13_mp_policy_bites.
